@@ -66,6 +66,7 @@ Definition judge_posit (cfg : list Z) (op : Z) (args res : list Z) : verdict :=
     | NaN => mkV (match f32_decode (nth0 res 0) with NaN => true | _ => false end) [f32_encode NaN] true
     | x => exact [f32_encode x] true
     end else
+  if Z.eqb op OP_to_f64_rt then exact [a] true else
   if Z.eqb op OP_to_int then    (* args: width w, bits; res: w-bit two's complement; judged only when it fits *)
     match p_to_int n es b with
     | Some z => if Z.leb (- 2^(a-1)) z && Z.ltb z (2^(a-1)) then exact [wrap a z] true else mkV true res false
